@@ -97,7 +97,7 @@ extern "C" void h_c03c_fcgi_framing()
 // C03.a: after the socket accepted n bytes, advance(buf, n) describes exactly the bytes of buf after
 // the first n: the chunks are a suffix of the original chunk list, every chunk ends where its source
 // chunk ends, only the first may be shortened, and the byte count is max(total - n, 0).
-static char g_src[8]; // addresses only
+static char g_src[8]; // addresses only: chunk i is [g_src+off_i, g_src+off_i+size_i), off_i symbolic
 extern "C" void h_c03a_advance()
 {
     unsigned k = verif_param(0);
@@ -108,7 +108,8 @@ extern "C" void h_c03a_advance()
     for (unsigned i = 0; i < k; i++) {
         sz[i] = nondet_u64();
         ASSUME(sz[i] >= 1 && sz[i] <= (1ull << 40));
-        pt[i] = g_src + (size_t(i) << 44);
+        size_t off = nondet_u64(); ASSUME(off <= (1ull << 44)); // any address: adjacent, overlapping, equal, out of order
+        pt[i] = g_src + off;
         b->add(pt[i], sz[i]);
         total += sz[i];
     }
@@ -146,7 +147,8 @@ extern "C" void h_c03b_gather()
     size_t esz[4]; char const *ept[4];
     for (unsigned i = 0; i < k; i++) {
         sz[i] = nondet_u64(); ASSUME(sz[i] <= (1ull << 40));
-        pt[i] = g_src + (size_t(i) << 44);
+        size_t off = nondet_u64(); ASSUME(off <= (1ull << 44)); // any address: adjacent, overlapping, equal, out of order
+        pt[i] = g_src + off;
         b->add(pt[i], sz[i]);
         if (sz[i] != 0) { esz[kept] = sz[i]; ept[kept] = pt[i]; kept++; total += sz[i]; }
     }
@@ -159,5 +161,6 @@ extern "C" void h_c03b_gather()
     if (kept < k) WITNESS("empty chunk skipped");
     if (kept == 0) WITNESS("empty list");
     if (kept == 1) WITNESS("single chunk");
+    if (kept >= 2 && ept[0] + esz[0] == ept[1]) WITNESS("second chunk starts where the first ends");
     VERIF_END();
 }
